@@ -85,16 +85,22 @@ Qed.
 Lemma sigs_of_fixed keys S s : In s (ms_sigs_of keys S) -> fixsig s = s.
 Proof. unfold ms_sigs_of. intros H. apply in_map_iff in H. destruct H as [k [E _]]. subst. reflexivity. Qed.
 
+Lemma input_verify_general (f : Z -> bool) keys sigs m : NoDup keys -> (1 <= m)%nat ->
+  map sg_by sigs = filter f keys ->
+  ms_input_verify keys sigs m = (Nat.leb m (length sigs), map fixsig (firstn m sigs) ++ skipn m sigs).
+Proof.
+  intros Hnd Hm Hby. unfold ms_input_verify. destruct sigs as [|s ss].
+  - destruct m; [lia | reflexivity].
+  - apply (verify_general f keys Hnd (s :: ss) m Hby).
+Qed.
+
 Lemma input_verify_good keys S m : NoDup keys -> (1 <= m)%nat ->
   ms_input_verify keys (ms_sigs_of keys S) m =
     (Nat.leb m (length (ms_sigs_of keys S)), ms_sigs_of keys S).
 Proof.
-  intros Hnd Hm. unfold ms_input_verify.
-  destruct (ms_sigs_of keys S) as [|s ss] eqn:E.
-  - destruct m; [lia | reflexivity].
-  - rewrite <- E.
-    rewrite (verify_general (fun k => ms_mem k S) keys Hnd _ m (sigs_of_by keys S)).
-    rewrite fix_firstn_skipn; [reflexivity | apply sigs_of_fixed].
+  intros Hnd Hm.
+  rewrite (input_verify_general (fun k => ms_mem k S) keys _ m Hnd Hm (sigs_of_by keys S)).
+  rewrite fix_firstn_skipn; [reflexivity | apply sigs_of_fixed].
 Qed.
 
 Lemma map_fix_untag keys S : map fixsig (map ms_untag (ms_sigs_of keys S)) = ms_sigs_of keys S.
@@ -111,15 +117,11 @@ Proof.
   intros Hnd Hm Hle.
   assert (Hby : map sg_by (map ms_untag (ms_sigs_of keys S)) = filter (fun k => ms_mem k S) keys).
   { rewrite map_map. rewrite <- (sigs_of_by keys S). apply map_ext. reflexivity. }
-  unfold ms_input_verify.
-  destruct (map ms_untag (ms_sigs_of keys S)) as [|u us] eqn:Eu.
-  - destruct (ms_sigs_of keys S); [|discriminate]. destruct m; [lia | reflexivity].
-  - rewrite <- Eu.
-    rewrite (verify_general (fun k => ms_mem k S) keys Hnd _ m Hby).
-    rewrite map_length.
-    rewrite firstn_all2 by (rewrite map_length; exact Hle).
-    rewrite skipn_all2 by (rewrite map_length; exact Hle).
-    rewrite app_nil_r. rewrite map_fix_untag. reflexivity.
+  rewrite (input_verify_general (fun k => ms_mem k S) keys _ m Hnd Hm Hby).
+  rewrite map_length.
+  rewrite firstn_all2 by (rewrite map_length; exact Hle).
+  rewrite skipn_all2 by (rewrite map_length; exact Hle).
+  rewrite app_nil_r. rewrite map_fix_untag. reflexivity.
 Qed.
 
 (* ---------- the signature domain ---------- *)
@@ -147,6 +149,14 @@ Proof.
   rewrite index_of_cons. destruct (k =? y) eqn:E; [exists O; reflexivity|].
   destruct H as [H|H]; [subst; rewrite Z.eqb_refl in E; discriminate|].
   destruct (IH H) as [p Hp]. rewrite Hp. exists (S p). reflexivity.
+Qed.
+
+Lemma index_of_Some_In k keys : forall pos, ms_index_of k keys = Some pos -> In k keys.
+Proof.
+  induction keys as [|y r IH]; intros pos H; [discriminate|].
+  rewrite index_of_cons in H. destruct (k =? y) eqn:E.
+  - apply Z.eqb_eq in E. left. congruence.
+  - destruct (ms_index_of k r) as [p|] eqn:Ep; [|discriminate]. right. apply (IH p eq_refl).
 Qed.
 
 Lemma index_of_None k keys : ms_index_of k keys = None -> ~ In k keys.
@@ -182,7 +192,7 @@ Proof.
 Qed.
 
 Lemma dom_of_nil keys : dom_of keys [] = repeat None (length keys).
-Proof. unfold dom_of. induction keys as [|k r IH]; [reflexivity|]. cbn. rewrite IH. reflexivity. Qed.
+Proof. induction keys as [|k r IH]; [reflexivity|]. unfold dom_of in *. cbn [map length repeat]. rewrite IH. reflexivity. Qed.
 
 Lemma place_known_eq keys old dom n : ms_place_known keys old dom n =
   match old with
@@ -256,12 +266,7 @@ Proof.
   intros Hnd. unfold ms_sign_input.
   destruct (ms_index_of c keys) as [pos|] eqn:Epos.
   - unfold ms_sigs_of at 1. rewrite existsb_tag_is.
-    assert (Hc : In c keys).
-    { destruct (in_dec Z.eq_dec c keys) as [H|H]; [exact H|].
-      exfalso. clear -Epos H. induction keys as [|y r IH]; [discriminate|].
-      rewrite index_of_cons in Epos. destruct (c =? y) eqn:E.
-      - apply Z.eqb_eq in E. apply H. left. congruence.
-      - destruct (ms_index_of c r) eqn:E2; [|discriminate]. apply IH; [reflexivity|]. intros Hr. apply H. right. exact Hr. }
+    assert (Hc : In c keys) by (eapply index_of_Some_In; exact Epos).
     rewrite (mem_filter c keys S Hc).
     destruct (ms_mem c S) eqn:EcS.
     + f_equal. apply sigs_of_ext. intros k Hk. rewrite ms_mem_cons.
@@ -335,6 +340,19 @@ Proof.
   destruct (Nat.leb m (length (ms_sigs_of keys S))); reflexivity.
 Qed.
 
+Lemma sign_all_good keys S c : NoDup keys ->
+  ms_sign_all [{| mi_keys := keys; mi_sigs := ms_sigs_of keys S |}] (Some c) =
+    Some [{| mi_keys := keys; mi_sigs := ms_sigs_of keys (c :: S) |}].
+Proof. intros Hnd. cbn [ms_sign_all mi_keys mi_sigs]. rewrite (sign_good keys S c Hnd). reflexivity. Qed.
+
+Lemma sign_all_none (x : minput) : ms_sign_all [x] None = Some [x].
+Proof. destruct x. reflexivity. Qed.
+
+Lemma hand_map keys sigs h m :
+  map (fun x => mi_with x (ms_channel h m (mi_sigs x))) [{| mi_keys := keys; mi_sigs := sigs |}] =
+    [{| mi_keys := keys; mi_sigs := ms_channel h m sigs |}].
+Proof. reflexivity. Qed.
+
 Lemma step_good keys m S st o : NoDup keys -> (1 <= m)%nat ->
   good_state keys m S st -> ms_chain_ok keys m S [o] = true ->
   good_state keys m (ms_signers S [o]) (fst (ms_step m st o)) /\
@@ -342,27 +360,25 @@ Lemma step_good keys m S st o : NoDup keys -> (1 <= m)%nat ->
 Proof.
   intros Hnd Hm [Hins Hver] Hok. destruct o as [[c|]|h|].
   - (* sign *)
-    split; [|discriminate]. unfold ms_step. rewrite Hins. cbn [ms_sign_all mi_keys mi_sigs].
-    rewrite (sign_good keys S c Hnd). cbn [mi_with mi_keys].
+    split; [|discriminate]. unfold ms_step. rewrite Hins. rewrite (sign_all_good keys S c Hnd).
     rewrite (tx_verify_good keys (c :: S) m Hnd Hm). cbn [fst ms_signers]. split; reflexivity.
   - (* watch-only wallet: nothing to sign *)
-    split; [|discriminate]. unfold ms_step. rewrite Hins. cbn [ms_sign_all ms_sign_input mi_keys mi_sigs mi_with].
+    split; [|discriminate]. unfold ms_step. rewrite Hins. rewrite sign_all_none.
     rewrite (tx_verify_good keys S m Hnd Hm). cbn [fst ms_signers]. split; reflexivity.
   - split; [|discriminate]. destruct h.
-    + unfold ms_step. rewrite Hins. cbn [map mi_with mi_keys mi_sigs].
+    + unfold ms_step. rewrite Hins. rewrite hand_map.
       rewrite (channel_object_good keys S m Hnd). rewrite (tx_verify_good keys S m Hnd Hm).
       cbn [fst ms_signers]. split; reflexivity.
     + cbn [ms_chain_ok] in Hok. apply andb_true_iff in Hok. destruct Hok as [Hle _]. apply Nat.leb_le in Hle.
-      unfold ms_step. rewrite Hins. cbn [map mi_with mi_keys mi_sigs].
+      unfold ms_step. rewrite Hins. rewrite hand_map.
       rewrite (channel_dict_good keys S m Hnd). rewrite (tx_verify_untagged keys S m Hnd Hm Hle).
       cbn [fst ms_signers]. split; reflexivity.
     + discriminate.
   - (* send *)
-    unfold ms_step. rewrite Hver.
-    destruct (Nat.leb m (length (ms_sigs_of keys S))) eqn:E.
-    + cbn [fst snd ms_signers]. split; [split; [exact Hins | rewrite Hver; exact E] | reflexivity].
-    + rewrite Hins. rewrite (tx_verify_good keys S m Hnd Hm). rewrite E.
-      cbn [fst snd ms_signers]. split; [split; [reflexivity | cbn; exact (eq_sym E)] | reflexivity].
+    unfold ms_step. destruct (st_verified st) eqn:Ev.
+    + cbn [fst snd ms_signers]. split; [split; [exact Hins | rewrite Ev; exact Hver] | intros _; rewrite <- Hver; reflexivity].
+    + rewrite Hins. rewrite (tx_verify_good keys S m Hnd Hm). rewrite <- Hver.
+      cbn [fst snd ms_signers st_ins st_verified]. split; [split; [reflexivity | exact Hver] | reflexivity].
 Qed.
 
 Lemma chain_ok_cons keys m S o r :
@@ -385,12 +401,13 @@ Proof.
   apply IH; [|exact Hr]. apply (step_good keys m S st o Hnd Hm Hg Ho).
 Qed.
 
+Lemma sigs_of_nil keys : ms_sigs_of keys [] = [].
+Proof. unfold ms_sigs_of. induction keys as [|k r IH]; [reflexivity | exact IH]. Qed.
+
 Lemma init_good keys m : (1 <= m)%nat -> good_state keys m [] (ms_init [keys]).
 Proof.
-  intros Hm. split; [reflexivity|].
-  assert (E : ms_sigs_of keys [] = []).
-  { unfold ms_sigs_of. induction keys as [|k r IH]; [reflexivity | exact IH]. }
-  rewrite E. cbn. destruct m; [lia | reflexivity].
+  intros Hm. unfold good_state. rewrite sigs_of_nil. split; [reflexivity|].
+  cbn. destruct m; [lia | reflexivity].
 Qed.
 
 Lemma m_signers_suffice_lemma keys m ops : NoDup keys -> (1 <= m)%nat ->
